@@ -126,14 +126,24 @@ int chunks_from_temp(zckCtx *zck) {
        return false;
     }
 
+    size_t copied = 0;
     while((read_count = read(zck->temp_fd, data, BUF_SIZE)) > 0) {
         if(!write_data(zck, zck->fd, data, read_count)) {
             free(data);
             return false;
         }
+        copied += read_count;
     }
     free(data);
     if(read_count == -1)
         return false;
+    /* The temporary file must hold every chunk the index describes */
+    if(copied != zck->index.length) {
+        set_fatal_error(zck,
+                        "Temporary file ended after %llu of %llu bytes",
+                        (long long unsigned) copied,
+                        (long long unsigned) zck->index.length);
+        return false;
+    }
     return true;
 }
